@@ -24,8 +24,7 @@ OSC = ["Stdout", "Stderr", "Combined"]
 
 
 def sym_dur(ctx, name):
-    v = ctx.sym_int(name, "u128")
-    ctx.add(z3.ULT(v.z(), z3.BitVecVal(1 << 70, 128)))
+    v = ctx.sym_int(name, "nat")
     return Agg("Duration", None, [v])
 
 
